@@ -157,10 +157,10 @@ def main() -> None:
         checks.append(
             {
                 "property_id": pid,
-                "quick_cmd": f"{PY} -m sv check {pid} --tier quick --repo /repo",
-                "thorough_cmd": f"{PY} -m sv check {pid} --tier thorough --repo /repo",
+                "quick_cmd": f"cd /verif && {PY} -m sv check {pid} --tier quick --repo /repo",
+                "thorough_cmd": f"cd /verif && {PY} -m sv check {pid} --tier thorough --repo /repo",
                 "evidence_file": f"/verif/evidence/{pid}.json",
-                "replay_cmd_template": f"{PY} -m sv replay {{path}}",
+                "replay_cmd_template": f"cd /verif && {PY} -m sv replay {{path}}",
                 "engine": "sv",
                 "level_claimed": {"category": "other", "text": text, "design_ref": ref},
                 "level_note": note,
@@ -174,7 +174,7 @@ def main() -> None:
         na.append({"property_id": pid, "reason": NOT_APPLICABLE.get(pid, PENDING_REASON)})
     manifest = {
         "version": 1,
-        "setup_cmd": f"{PY} -m sv setup",
+        "setup_cmd": f"cd /verif && {PY} -m sv setup",
         "hooks": {
             "guard": "OPTIMIZERS_VERIF",
             "enable": "no hooks: the checks are static analyses that parse /repo's working tree; nothing in /repo is instrumented",
